@@ -203,6 +203,20 @@ fn c13d_case(p: &conc::MemProgram) -> CaseReport {
     CaseReport { failure, nontrivial, counters, sample, evaluations: 1 }
 }
 
+fn c07m_case(p: &conc::ClockProgram) -> CaseReport {
+    let out = conc::run_clock_program(p);
+    let mut counters = BTreeMap::new();
+    *counters.entry("rounds".into()).or_insert(0) += out.rounds;
+    *counters.entry("explicit_future_timestamps_accepted".into()).or_insert(0) += out.explicit_accepted;
+    *counters.entry("helper_automatic_writes".into()).or_insert(0) += out.helper_writes;
+    *counters.entry("same_key_automatic_writes_accepted".into()).or_insert(0) += out.same_key_auto_accepted;
+    *counters.entry(format!("mode.{}", if p.persistent { "persistent" } else { "memory" })).or_insert(0) += 1;
+    let nontrivial = (out.explicit_accepted > 0 && out.helper_writes > 0).then(|| env::fnv(format!("{p:?}").as_bytes()));
+    let sample = nontrivial.map(|_| json!({"program": serde_json::to_value(p).unwrap(), "rounds": out.rounds, "helper_writes": out.helper_writes}));
+    let failure = out.failure.map(|(sig, msg)| (sig, msg, json!({"program": serde_json::to_value(p).unwrap()})));
+    CaseReport { failure, nontrivial, counters, sample, evaluations: 1 }
+}
+
 fn c11d_case(p: &conc::SweepProgram) -> CaseReport {
     let out = conc::run_sweep_program(p);
     let mut counters = BTreeMap::new();
@@ -370,6 +384,26 @@ pub fn worker(id: &str, seed: u64, lane: u64, count: u32, outdir: &str, tier: Ti
                     TestError::Abort(r) => TestError::Abort(r),
                 })
         }
+        "C07M" => {
+            let strat = conc::clock_program_strategy();
+            runner
+                .run(&strat, |p| {
+                    let counting = !failed.load(std::sync::atomic::Ordering::Relaxed);
+                    let r = c07m_case(&p);
+                    absorb(&agg, &r, counting);
+                    match r.failure {
+                        Some((sig, msg, _)) => {
+                            failed.store(true, std::sync::atomic::Ordering::Relaxed);
+                            Err(TestCaseError::fail(format!("[{sig}] {msg}")))
+                        }
+                        None => Ok(()),
+                    }
+                })
+                .map_err(|e| match e {
+                    TestError::Fail(r, v) => TestError::Fail(r, serde_json::to_value(&v).unwrap()),
+                    TestError::Abort(r) => TestError::Abort(r),
+                })
+        }
         "C11D" => {
             let strat = conc::sweep_program_strategy();
             runner
@@ -476,6 +510,11 @@ fn meta(id: &str, tier: Tier) -> Meta {
             rule: "proptest-generated programs on a memory-only store with a limit of 8-200 KB: 2-8 threads insert / insert_bytes / grow by compare-and-swap / delete their own keys and up to 5 shared keys with values of 10 B - 40 KB (so only some writes fit), plus counters; two monitor threads sample memory_usage() continuously; steered schedules. Every sample must be <= the limit; a write refused with OutOfMemory must leave the owner's key unchanged; owned deletes must agree with the owner's knowledge; after all writers finished memory_usage() must equal the sum over the stored records and len() their number. Non-trivial: a run with at least one refused write and at least one write admitted within 2 KB of the limit.",
             assumptions: vec!["the limit is checked on sampled instants (two spinning monitor threads), not on every instant".into()],
         },
+        "C07M" => Meta {
+            cases: tier.pick(640, 8000),
+            rule: "proptest-generated mixed-clock programs (memory-only and persistent): 60-400 rounds on fresh keys; in every round the main thread publishes insert_with_timestamp(key, Some(F)) with F 1 s / 1 h / 10 days ahead of the wall clock while 1-3 helper threads, released by the same barrier with a generated skew, draw automatic timestamps - on the round's own key and on pools of 1-300 other keys that collide into the same one of the 64 clock shards. After every round all helpers are parked; the main thread then issues an automatic insert / delete / compare-and-swap on the key. In real-time order that call is the newest write: it must be accepted, and the stored timestamp must exceed F. Non-trivial: a program in which explicit future timestamps were accepted while helpers wrote.",
+            assumptions: vec!["the race between the explicit publication and the helpers' timestamp draws is sampled (barrier + generated spin skew), not enumerated".into()],
+        },
         "C11D" => Meta {
             cases: tier.pick(900, 14_000),
             rule: "proptest-generated programs with a process-wide virtual clock: every key gets a 1 s TTL at time T, the clock jumps to T+2 s, the TTL sweeper starts (sample size 1-100, 1 ms interval) and 1-3 writers race it on their own keys: update_ttl / persist (must fail on the expired generation, must succeed after a replacement), replacement without TTL or with a long TTL, short already-expired TTLs again; a reader loops over all keys. A key whose latest generation is unexpired or has no expiry must never be missing (to the reader, to its writer's TTL calls, at the end); a value whose only generation expired >= 1 s ago must never be returned; TTL-only calls never revive an expired generation; returned bytes are the current generation. Memory-only and persistent. Non-trivial: a run in which the sweeper removed keys and writers issued TTL-only renewals.",
@@ -483,7 +522,7 @@ fn meta(id: &str, tier: Tier) -> Meta {
         },
         "C18" => Meta {
             cases: tier.pick(480, 6000),
-            rule: "proptest-generated contention programs on persistent stores with 1-8 workers: 1-3 writers (insert / insert_bytes / TTL insert / delete / increment / compare-and-swap, 0-3 block values on 2-12 keys), 0-2 readers (get, range_query), 1-3 threads calling flush() in a loop, optionally the TTL sweeper at a 2 ms interval; devices of 20-60 blocks (they fill up: flush must answer OutOfSpace and succeed again after deletes) or 500 blocks; optionally every device write/fsync fails from the k-th call on (healing after 0/30/200 ms or never); schedules free / jitter / bounded parks inside reads, batches and retirement; close either after joining, or by dropping the main handle while the threads still run, or with the sweeper possibly holding the last reference. Every call, join, flush and drop runs under a 20 s watchdog; a program that trips it is re-executed alone with a 60 s limit and only a second overrun is a violation (thread states are reported). Non-trivial: at least three threads were inside the store at once, or a flush met a full device, or an injected fault was consumed.",
+            rule: "proptest-generated contention programs on persistent stores with 1-8 workers: 1-3 writers (insert / insert_bytes / TTL insert / delete / increment / compare-and-swap, 0-3 block values on 2-12 keys), 0-2 readers (get, range_query), 1-3 threads calling flush() in a loop, optionally the TTL sweeper at a 2 ms interval; devices of 20-60 blocks (they fill up: flush must answer OutOfSpace and succeed again after deletes) or 500 blocks; optionally every device write/fsync fails from the k-th call on (healing after 0/30/200 ms or never); schedules free / jitter / bounded parks inside reads, batches and retirement; close either after joining, or by dropping the main handle while the threads still run, or with the sweeper possibly holding the last reference. Every call, join, flush and drop runs under a 20 s watchdog; a program that trips it is re-executed alone up to three times with a 60 s limit and only a second overrun is a violation (thread states are reported). One program in four has 2-3 flush() callers and 2-3 writers on a roomy device whose record writes fail 3-9 times in a row again and again (markers, journal and metadata keep working). Non-trivial: at least three threads were inside the store at once, or a flush met a full device, or an injected fault was consumed.",
             assumptions: vec!["termination is observed for the explored schedules only (a watchdog is a bound, not a proof of liveness); every run of every other engine is under the same watchdog".into()],
         },
         _ => unreachable!(),
@@ -589,11 +628,18 @@ pub fn run_campaign(id: &'static str, property: &'static str, tier: Tier, seed: 
             // the worker tripped the watchdog (or died): re-run the journaled program alone, 60 s limit
             let journal = outdir.join(format!("lane{lane}.current.json"));
             let first = text.lines().find(|l| l.contains("INCONCLUSIVE")).unwrap_or("worker died").to_string();
-            let again = Command::new(&exe).args(["C18", "--single", journal.to_str().unwrap(), "60000"]).stdout(Stdio::piped()).stderr(Stdio::null()).output();
-            let (second_hang, second_text) = match &again {
-                Ok(o) => (!String::from_utf8_lossy(&o.stdout).contains("SINGLE-OK"), String::from_utf8_lossy(&o.stdout).lines().find(|l| l.contains("INCONCLUSIVE")).unwrap_or("").to_string()),
-                Err(_) => (false, String::new()),
-            };
+            // a deadlock that needs a race may not strike again at once: up to three runs alone
+            let (mut second_hang, mut second_text) = (false, String::new());
+            for _ in 0..3 {
+                let again = Command::new(&exe).args(["C18", "--single", journal.to_str().unwrap(), "60000"]).stdout(Stdio::piped()).stderr(Stdio::null()).output();
+                if let Ok(o) = &again {
+                    if !String::from_utf8_lossy(&o.stdout).contains("SINGLE-OK") {
+                        second_hang = true;
+                        second_text = String::from_utf8_lossy(&o.stdout).lines().find(|l| l.contains("INCONCLUSIVE")).unwrap_or("").to_string();
+                        break;
+                    }
+                }
+            }
             if second_hang {
                 let mut doc: Value = serde_json::from_str(&std::fs::read_to_string(&journal).unwrap_or_default()).unwrap_or_default();
                 doc["property"] = json!(property);
@@ -672,6 +718,7 @@ pub fn replay_sub(id: &str, path: &str) -> i32 {
             "C14D" => serde_json::from_value::<conc::ScanProgram>(doc["replay"]["program"].clone()).ok().and_then(|p| c14d_case(&p, 1).failure),
             "C13D" => serde_json::from_value::<conc::MemProgram>(doc["replay"]["program"].clone()).ok().and_then(|p| c13d_case(&p).failure),
             "C11D" => serde_json::from_value::<conc::SweepProgram>(doc["replay"]["program"].clone()).ok().and_then(|p| c11d_case(&p).failure),
+            "C07M" => serde_json::from_value::<conc::ClockProgram>(doc["replay"]["program"].clone()).ok().and_then(|p| c07m_case(&p).failure),
             "C08" | "C16D" => serde_json::from_value::<conc::RaceProgram>(doc["replay"]["program"].clone()).ok().and_then(|p| c08_case(&p, 1).failure),
             _ => None,
         };
